@@ -144,23 +144,29 @@ fn bits_for(tr: &ExtendedHeader, un: &ExtendedHeader) -> Vec<u8> {
     trusting_bits(&tr.validator_set, &un.commit, tr.chain_id())
 }
 
+fn ibits_for(tr: &ExtendedHeader, un: &ExtendedHeader) -> Vec<u8> {
+    trusting_ibits(&tr.validator_set, &un.commit, tr.chain_id())
+}
+
 fn pair_line(op: &str, tr: &ExtendedHeader, un: &ExtendedHeader) -> String {
     format!(
-        "{op} now={NOW} {} {} bits={}",
+        "{op} now={NOW} {} {} bits={} ibits={}",
         fmt_eh_nodah(tr, "t.", false),
         fmt_eh_nodah(un, "u.", false),
-        bits_str(&bits_for(tr, un))
+        bits_str(&bits_for(tr, un)),
+        bits_str(&ibits_for(tr, un))
     )
 }
 
 fn range_line(op: &str, hs: &[ExtendedHeader]) -> String {
     let bits = if hs.len() >= 2 { bits_for(&hs[0], &hs[1]) } else { vec![] };
+    let ibits = if hs.len() >= 2 { ibits_for(&hs[0], &hs[1]) } else { vec![] };
     let mut s = format!("{op} now={NOW} n={}", hs.len());
     for (i, h) in hs.iter().enumerate() {
         s.push(' ');
         s.push_str(&fmt_eh_nodah(h, &format!("{i}."), false));
     }
-    s.push_str(&format!(" bits={}", bits_str(&bits)));
+    s.push_str(&format!(" bits={} ibits={}", bits_str(&bits), bits_str(&ibits)));
     s
 }
 
@@ -451,17 +457,18 @@ impl Prop for C02 {
             h.header.time = time_of(h.header.time.unix_timestamp_nanos() + shift);
             h
         };
-        let fin = |r: celestia_types::Result<()>, bits: &[u8]| match r {
-            Ok(()) => format!("ok bits={}", bits_str(bits)),
-            Err(e) => format!("err {} bits={}", err_kind(&e), bits_str(bits)),
+        let fin = |r: celestia_types::Result<()>, bits: &[u8], ibits: &[u8]| match r {
+            Ok(()) => format!("ok bits={} ibits={}", bits_str(bits), bits_str(ibits)),
+            Err(e) => format!("err {} bits={} ibits={}", err_kind(&e), bits_str(bits), bits_str(ibits)),
         };
         match op {
             "verify" | "verify_adjacent" => {
                 let (Some(t), Some(u)) = (parse_eh_nodah(line, "t."), parse_eh_nodah(line, "u.")) else { return "bad-op".into() };
                 let bits = bits_for(&t, &u);
+                let ibits = ibits_for(&t, &u);
                 let (t, u) = (rebase(t), rebase(u));
                 let r = if op == "verify" { t.verify(&u) } else { t.verify_adjacent(&u) };
-                fin(r, &bits)
+                fin(r, &bits, &ibits)
             }
             "verify_range" | "verify_adjacent_range" | "verified" => {
                 let Some(n) = arg_u64(line, "n") else { return "bad-op".into() };
@@ -471,13 +478,14 @@ impl Prop for C02 {
                     hs.push(h);
                 }
                 let bits = if hs.len() >= 2 { bits_for(&hs[0], &hs[1]) } else { vec![] };
+                let ibits = if hs.len() >= 2 { ibits_for(&hs[0], &hs[1]) } else { vec![] };
                 let hs: Vec<ExtendedHeader> = hs.into_iter().map(rebase).collect();
                 let r = match op {
                     "verify_range" => hs[0].verify_range(&hs[1..]),
                     "verify_adjacent_range" => hs[0].verify_adjacent_range(&hs[1..]),
                     _ => VerifiedExtendedHeaders::try_from(hs).map(|_| ()),
                 };
-                fin(r, &bits)
+                fin(r, &bits, &ibits)
             }
             _ => "bad-op".into(),
         }
